@@ -76,6 +76,7 @@ struct Obs {
     std::atomic<int> next_id{1};
     std::atomic<int> fails{0}; std::mutex fm; std::string fkey, fwhat;
     unsigned work = 0, work_p = 0;       // body delay: with probability work_p/8 spin up to `work` iterations
+    unsigned head = 0; std::atomic<bool> head_done{false};   // the first chunk executed stalls this long: thieves arrive while the call is young
 
     int touch() {
         int t = thread_ordinal();
@@ -87,7 +88,14 @@ struct Obs {
         return t;
     }
     void chunk(long long b, long long e, int kind, int thr) { int k = nlog.fetch_add(1, RLX); if (k < CAP) log[k] = Ch{ b, e, kind, thr }; }
-    void spin() { if (work) { uint32_t x = trng().u32(); if ((x & 7) < work_p) spin_iters((x >> 8) % work); } }
+    unsigned nest = 0;                   // with probability nest/16 a chunk runs a small nested parallel_for: the thread waits inside the body and may
+                                         // pick up the sibling (right) task of the very call it is in the middle of
+    void spin() {
+        if (head && !head_done.load(RLX) && !head_done.exchange(true, RLX)) spin_iters(head);
+        uint32_t x = (work || nest) ? trng().u32() : 0;
+        if (work && (x & 7) < work_p) spin_iters((x >> 8) % work);
+        if (nest && ((x >> 4) & 15) < nest) tbb::parallel_for(0, 3, [](int) { spin_iters(150); }, tbb::simple_partitioner());
+    }
     void fail(const char* what_key, const std::string& what) {
         if (fails.fetch_add(1) == 0) { std::lock_guard<std::mutex> l(fm); fkey = std::string("c06.") + cls + "." + what_key; fwhat = what; }
     }
@@ -296,14 +304,24 @@ struct Ctx {
     tbb::task_arena *A, *B, *A2; int conc, conc_b; PartPool* pool; int driver; bool perturb_owner; Tally tally;
     std::vector<int> ids;
 };
-static void new_perturbation(Ctx& c, Rng& r) { if (c.perturb_owner) perturb_random(r, c.ids); }
+// One perturbation setting is shared by all drivers of a batch; a simple_partitioner call passes the hooks once per leaf
+// (thousands of times), so the per-hit delay probability is capped to keep such calls from taking seconds.
+static void new_perturbation(Ctx& c, Rng& r) {
+    if (!c.perturb_owner) return;
+    perturb_random(r, c.ids);
+    for (auto& p : perturb().prob) if (p.load(RLX) > 8000) p.store(8000, RLX);
+}
 
 static void set_work(Obs& o, Rng& r) {
-    unsigned k = (unsigned)r.below(10);
+    // without some work per chunk a short call is over before a thief arrives and nothing is split by stealing
+    unsigned k = (unsigned)r.below(20);
     if (k < 3) { o.work = 0; }
-    else if (k < 7) { o.work = 600; o.work_p = 2; }
-    else if (k < 9) { o.work = 4000; o.work_p = 3; }
-    else { o.work = 30000; o.work_p = 1; }
+    else if (k < 9) { o.work = 1500; o.work_p = 8; }
+    else if (k < 14) { o.work = 5000; o.work_p = 3; }
+    else if (k < 18) { o.work = 600; o.work_p = 2; }
+    else { o.work = 40000; o.work_p = 1; }
+    o.head = r.chance(3, 5) ? 3000 + (unsigned)r.below(40000) : 0;
+    o.nest = r.chance(1, 4) ? 1 + (unsigned)r.below(6) : 0;
 }
 
 static long long pick_n(Rng& r, bool need_arrays) {
@@ -327,7 +345,7 @@ static size_t pick_grain(Rng& r, long long n) {
     }
 }
 // simple_partitioner makes one leaf per grain: keep the number of leaves bounded
-static size_t bound_leaves(size_t g, long long n, long long max_leaves) { size_t need = (size_t)(n / max_leaves) + 1; return std::max(g, need); }
+static size_t bound_leaves(size_t g, long long n, long long max_leaves) { if (n <= max_leaves) return g; size_t need = (size_t)(n / max_leaves) + 1; return std::max(g, need); }
 
 static void report_obs_fail(Result& R, Obs& o, const std::string& scen) {
     if (o.fails.load()) { std::lock_guard<std::mutex> l(o.fm); R.violation(o.fkey, o.fwhat + " (" + std::to_string(o.fails.load()) + " failed checks in this call)", scen); }
@@ -374,7 +392,7 @@ static void scen_reduce(Ctx& c, Rng& r) {
         return;
     }
     long long n = pick_n(r, false); size_t g = pick_grain(r, n);
-    if (part == 0) g = bound_leaves(g, n, 20000);
+    if (part == 0) g = bound_leaves(g, n, r.chance(1, 20) ? 20000 : 3000);
     long long base = 0;
     switch (r.below(6)) { case 0: base = 1; break; case 1: base = -5 - (long long)r.below(1000); break; case 2: base = 0x7fffffffLL - n; break; case 3: base = -0x80000000LL; break; default: break; }
     const float* data = n <= 65536 ? g_data : nullptr;
@@ -388,10 +406,10 @@ static void scen_det(Ctx& c, Rng& r) {
     static const int parts[] = { 0, 0, 2, 2, 4 };
     int part = parts[r.below(5)]; bool body_form = r.chance(1, 2);
     long long n = std::max<long long>(1, pick_n(r, false)); size_t g = pick_grain(r, n);
-    if (part != 2) g = bound_leaves(g, n, 20000);
+    if (part != 2) g = bound_leaves(g, n, r.chance(1, 20) ? 20000 : 1500);
     long long base = r.chance(1, 3) ? (r.chance(1, 2) ? -17 : 0x7fffffffLL - n) : 0;
     const float* data = n <= 65536 ? g_data : nullptr;
-    unsigned work = 0, work_p = 0; { Obs tmp; set_work(tmp, r); work = tmp.work; work_p = tmp.work_p; }
+    unsigned work = 0, work_p = 0, head = 0, nest = 0; { Obs tmp; set_work(tmp, r); work = tmp.work; work_p = tmp.work_p; head = tmp.head; nest = tmp.nest; }
     // simple: the tree depends on range and grain only -> arenas of different concurrency, hot and cold
     // static: the partitioner divides by the arena's concurrency -> compare arenas of equal concurrency, hot and cold
     tbb::task_arena* arenas[3]; int concs[3];
@@ -404,14 +422,20 @@ static void scen_det(Ctx& c, Rng& r) {
     sj.kv("partitioner", part_name[part]); sj.key("arenas").arr(); for (int k = 0; k < nruns; k++) sj.val(concs[k]); sj.end_arr(); sj.end_obj();
     for (int k = 0; k < nruns; k++) {
         new_perturbation(c, r);
-        obs[k] = std::make_unique<Obs>(); Obs& o = *obs[k]; o.cls = 'D'; o.work = work; o.work_p = work_p;
+        obs[k] = std::make_unique<Obs>(); Obs& o = *obs[k]; o.cls = 'D'; o.work = work; o.work_p = work_p; o.head = head; o.nest = nest;
         arenas[k]->execute([&] { got[k] = do_reduce<int>(o, true, body_form, part, *c.pool, r, (int)base, (int)(base + n), g, data); });
         if (!got[k].runs.is(base, base + n))
             R.violation("c06.D.result-wrong", std::string("parallel_deterministic_reduce (") + part_name[part] + ") over [" + std::to_string(base) + "," + std::to_string(base + n) + ") grain " + std::to_string(g) +
                         " returned the operand sequence " + got[k].runs.str(), sj.s);
         report_obs_fail(R, o, sj.s);
         multi = multi || o.multi.load(); leaves = o.leaves.load();
-        if (k > 0 && (got[k].tree != got[0].tree || fbits(got[k].f) != fbits(got[0].f))) {
+        // A workerless arena (concurrency 1) reports max_concurrency() 1 or 2 depending on whether enqueued/delegated work is
+        // pending at that moment (mandatory concurrency), and static_partitioner divides by that number: the tree then
+        // follows the arena's momentary concurrency. That is the documented dependence of static_partitioner on the arena
+        // size, not a schedule dependence of the reduction itself: counted, not judged.
+        bool unstable_divisor = part == 2 && c.conc == 1;
+        if (k > 0 && unstable_divisor && got[k].tree != got[0].tree) c.tally.add("D_static_tree_varied_in_workerless_arena");
+        if (k > 0 && !unstable_divisor && (got[k].tree != got[0].tree || fbits(got[k].f) != fbits(got[0].f))) {
             char buf[256]; snprintf(buf, sizeof buf, "run %d (arena concurrency %d, %d threads took part) gave tree %016llx float %a; run 0 (arena concurrency %d) gave tree %016llx float %a", k, concs[k], o.threads(),
                                     (unsigned long long)got[k].tree, (double)got[k].f, concs[0], (unsigned long long)got[0].tree, (double)got[0].f);
             R.violation("c06.D.nondeterministic", std::string("parallel_deterministic_reduce (") + part_name[part] + ", n=" + std::to_string(n) + ", grain=" + std::to_string(g) + "): " + buf, sj.s);
@@ -452,7 +476,7 @@ static void scen_scan(Ctx& c, Rng& r) {
     static const int parts[] = { 0, 1, 4 };
     int part = parts[r.below(3)]; bool body_form = r.chance(1, 2);
     long long n = pick_n(r, true); size_t g = pick_grain(r, n);
-    if (part == 0) g = bound_leaves(g, n, 20000);
+    if (part == 0) g = bound_leaves(g, n, r.chance(1, 20) ? 20000 : 3000);
     long long base = r.chance(1, 3) ? (r.chance(1, 2) ? -9 : 0x7fffffffLL - n) : 0;
     auto o = std::make_unique<Obs>(); o->cls = 'S'; set_work(*o, r);
     std::vector<int> in((size_t)n); std::vector<uint64_t> out((size_t)n, ~0ull), refp((size_t)n);
@@ -652,6 +676,7 @@ int main(int argc, char** argv) {
     Rng top(mix(R.seed, 0xC06));
     tbb::global_control gc(tbb::global_control::max_allowed_parallelism, 16);
     PartPool pool;
+    perturb().max_sleep_us.store(120);
 
     WatchdogCfg wc;
     watchdog_start(wc, [&](const HangInfo& hi) {
